@@ -59,6 +59,9 @@ def run(ctx):
     for clause, idxs in sorted(bad.items()):
         ts = [traces[i] for i in idxs]
         t0 = min(ts, key=lambda t: len(t["ev"]))
+        if clause.startswith("K05"):
+            ctx.drift.append({"clause": clause, "traces": len(ts), "first_log": [[e["e"], e["q"], e["copy"], e.get("kind"), e["mid"]] for e in t0["log"]][:16]})
+            continue
         acts = [[e["act"]["a"], e["act"]["g"], e["act"]["q"], e["act"]["b"]] for e in t0["ev"] if e["applied"]]
         types = sorted(set(REQS[a[2] - 1]["typ"] for a in acts if a[0] == "inject"))
         vf.report(ctx, clause, {"request_types": types, "uses_own_mid": any(a[0] == "inject" and a[2] >= 3 for a in acts)},
